@@ -91,9 +91,17 @@ def itemsOf (p : Pkt) : List Link.Item := (p.answers ++ p.additionals).filterMap
 def adds (st : Step) : List Link.Svc := (sig lower N st.post).filter fun s => !(sig lower N st.pre).contains s
 def removes (st : Step) : List Link.Svc := (sig lower N st.pre).filter fun s => !(sig lower N st.post).contains s
 
+/-- `upd s`: an `update` block for a service the registry holds (an `update` of a name it does not hold acts as a registration
+and shows up as `reg`) -/
+def updSvcs (st : Step) : List Link.Svc :=
+  match st.b with
+  | .update s _ _ => if (sig lower N st.pre).contains (sigma lower N s) then [sigma lower N s] else []
+  | _ => []
+
 def stepEvents (st : Step) : Link.Trace :=
   (adds lower N st).map (fun s => ⟨st.t - 350, .reg s⟩)
   ++ (removes lower N st).map (fun s => ⟨st.t, .unreg s⟩)
+  ++ (updSvcs lower N st).map (fun s => ⟨st.t, .upd s⟩)
   ++ st.out.map (fun p => ⟨st.t, .send N.host 0 none (itemsOf lower N p)⟩)
 
 /-- the link trace of a run (not sorted: `reg` is dated back; the contracts K1, K2, K6 do not depend on the order) -/
@@ -106,6 +114,31 @@ def Disc (st : Step) : Prop :=
   | .update s _ _ => ∀ e ∈ st.pre.reg, key lower e.svc = key lower s → lower e.svc.type = lower s.type
   | .unregister s _ _ => ∀ e ∈ st.pre.reg, key lower e.svc = key lower s → lower e.svc.type = lower s.type
   | _ => True
+
+/-- further API discipline, needed for the safety half of K2: services are registered / updated with non-zero TTLs
+(`other_ttl`, `host_ttl` > 0), and `unregister` is called on a name that is registered (the real registry raises `KeyError`
+otherwise; the machine would start a goodbye task for nothing) -/
+def Disc2 (st : Step) : Prop :=
+  match st.b with
+  | .register s _ _ => 0 < s.otherTtl ∧ 0 < s.hostTtl
+  | .update s _ _ => 0 < s.otherTtl ∧ 0 < s.hostTtl
+  | .unregister s _ _ => ∃ e ∈ st.pre.reg, key lower e.svc = key lower s
+  | _ => True
+
+/-- for K1: a registered / updated service has at least one address (otherwise its announcement carries an NSEC record only and is
+not "complete") -/
+def Disc3 (st : Step) : Prop :=
+  match st.b with
+  | .register s _ _ => s.v4 ≠ [] ∨ s.v6 ≠ []
+  | .update s _ _ => s.v4 ≠ [] ∨ s.v6 ≠ []
+  | _ => True
+
+/-- the step yields a register / update / unregister event of `s` -/
+def regEvOf (st : Step) (s : Link.Svc) : Prop := s ∈ adds lower N st ∨ s ∈ removes lower N st ∨ s ∈ updSvcs lower N st
+
+/-- API calls on one service happen at distinct instants (the harness's WF: `distinctB (regEvs tr)`) -/
+def DistinctCalls (l : List Step) : Prop :=
+  ∀ pre st post, l = pre ++ st :: post → ∀ st' ∈ post, st'.t = st.t → ∀ s, regEvOf lower N st s → ¬ regEvOf lower N st' s
 
 /-- … and a name is registered again no earlier than 350 ms (one probing phase) after it was last withdrawn: the `reg` event
 of a service follows all its earlier `unreg` events -/
